@@ -315,8 +315,30 @@ class Parity:
       return self.of(t.a[1][0]) if t.a[1] else E
     if t.a[0] == Term('ext', 'jax.lax.slice_in_dim') and t.a[1]:
       return self.of(t.a[1][0])
+    if f.k == 'attr' and f.a[1] in ('swapaxes', 'transpose') and f.a[0].k not in ('ext', 'mod'):
+      p = self.of(f.a[0])   # decides the value being permuted first (an inconsistent reshape is reported there)
+      axes = [x.a[0] for x in t.a[1] if x.k == 'const' and isinstance(x.a[0], int)]
+      if isinstance(p, tuple) and (f.a[1] == 'transpose' or 0 in axes or len(axes) != len(t.a[1])):
+        raise Inconsistent(f'{f.a[1]} moves the axis along which the components are stacked')
+      return p
     if f.k == 'attr' and f.a[1] in ('sum', 'astype', 'reshape', 'ravel', 'squeeze', 'mean'):
       p = self.of(f.a[0])
+      if f.a[1] == 'reshape' and isinstance(p, tuple) and t.a[1]:
+        # components stacked along axis 0 (term-major): merging axes 0 and 1 and splitting them again must keep that order
+        def shape_index(e):
+          if e.k == 'sub' and e.a[1].k == 'const' and isinstance(e.a[1].a[0], int):
+            b = e.a[0]
+            if b.k == 'sub' and b.a[0].k == 'attr' and b.a[0].a[1] == 'shape':
+              return e.a[1].a[0]   # x.shape[:k][i]
+            if b.k == 'attr' and b.a[1] == 'shape':
+              return e.a[1].a[0]
+          return None
+        shp = t.a[1][0] if len(t.a[1]) == 1 else Term('tuple', *t.a[1])
+        lead = shp.a[1] if shp.k == 'bin' and shp.a[0] == '+' else shp
+        if lead.k == 'tuple' and len(lead.a) >= 2:
+          i0, i1 = shape_index(lead.a[0]), shape_index(lead.a[1])
+          if (i0, i1) == (1, 0):
+            raise Inconsistent('the stacked (term, layer) axes were flattened term-major but are split again as (layer, term): components of different terms / parities end up in one slot')
       if f.a[1] in ('sum', 'mean') and isinstance(p, tuple):
         return same(list(p), t)
       return p
